@@ -1,5 +1,5 @@
-(* DiffRevP.v -- lemmas about DiffRev.v: reversing a diff that means "fa becomes fb" (DiffTreeP.LevelSp / Sp) gives a diff that
-   means "fb becomes fa"; with DiffTreeP.apply_level_sp: apply (reverse (diff A B)) B = A. *)
+(* DiffRevP.v -- lemmas about DiffRev.v: reversing a diff that means [fa becomes fb] (DiffTreeP.LevelSp / Sp) gives a diff that
+   means [fb becomes fa]; with DiffTreeP.apply_level_sp: apply (reverse (diff A B)) B = A. *)
 From Coq Require Import Permutation Sorted.
 From LY Require Import Base Tree TreeP DiffTree DiffTreeP DiffRev.
 From Coq Require Import ZifyBool ZifyNat ZifyN.
